@@ -224,10 +224,10 @@ _KILL_RE = re.compile(r"^Task (.*) caused an exception( during a blocking operat
 
 
 def _kill_name(s):
-  m = re.match(r"^<\w+ (\S+) tid:", s)
+  m = re.match(r"^(?:<AgainTask )?(\S+)\(\) from", s)
   if m:
     return m.group(1)
-  m = re.match(r"^(\S+)\(\) from", s)
+  m = re.match(r"^<\w+ (\S+) tid:", s)
   if m:
     return m.group(1)
   return s[:60]
